@@ -555,7 +555,12 @@ func lookups(c *engine.Ctx, idNames []string) {
 				}
 				sort.Strings(allIDs)
 				// by id
-				for _, id := range append(append([]string{}, allIDs...), "zz", "") {
+				idQueries := append(append([]string{}, allIDs...), "zz", "")
+				for _, id := range allIDs {
+					// near-variants of present identifiers: a lookup that normalises its key would find them
+					idQueries = append(idQueries, strings.ToUpper(id), id+" ", " "+id, id+"\x00")
+				}
+				for _, id := range idQueries {
 					got := nl.GetNodeByID(id)
 					var want *sbom.Node
 					for _, x := range nl.Nodes {
@@ -572,7 +577,7 @@ func lookups(c *engine.Ctx, idNames []string) {
 					}
 				}
 				// by name
-				for _, nm := range append(append([]string{}, names...), "nope") {
+				for _, nm := range append(append([]string{}, names...), "nope", "X", "x ", " y", "Y") {
 					got := nl.GetNodesByName(nm)
 					var want []*sbom.Node
 					for _, x := range nl.Nodes {
@@ -589,7 +594,7 @@ func lookups(c *engine.Ctx, idNames []string) {
 				}
 				// by identifier
 				for _, sp := range spellKeys {
-					for _, val := range []string{p1, p2, "V", "", "other"} {
+					for _, val := range []string{p1, p2, "V", "", "other", "v", "V ", strings.ToUpper(p1), p1 + "/", p1 + "?a=b"} {
 						got := nl.GetNodesByIdentifier(sp, val)
 						var want []*sbom.Node
 						for _, x := range nl.Nodes {
